@@ -24,10 +24,11 @@ type C12MW struct {
 }
 
 type C12Step struct {
-	Kind  string `json:"kind"` // req | req_mutating_handler | dup | scribble_input | scribble_config_result | keep_config_result | scribble_kept | flip_scalars
+	Kind  string `json:"kind"` // req | req_mutating_handler | req_then_scribble_request | dup | scribble_input | scribble_config_result | keep_config_result | scribble_kept | flip_scalars | reconf_again
 	MW    int    `json:"mw"`
 	Req   int    `json:"req,omitempty"`   // index into the middleware's probe suite (mod len)
 	Alien bool   `json:"alien,omitempty"` // take the request from ANOTHER middleware's suite
+	Val   int    `json:"val,omitempty"`   // which value the scribbler writes (index into the value list, mod len)
 }
 
 type C12Plan struct {
@@ -64,10 +65,10 @@ func (c12) Parties() map[string]string {
 	return map[string]string{"cors.Middleware and internals": "real", "adversarial application code (caller of NewMiddleware/Reconfigure/Config, wrapped handler)": "stub (fault injector)", "clients": "stub", "ResponseWriter": "stub (recording)"}
 }
 func (c12) FaultKinds() []string {
-	return []string{"F4_scribble_input_config", "F4_scribble_config_result", "F4_scribble_kept_config_result", "F4_flip_scalars", "F4_handler_scribbles_request_headers", "F4_handler_scribbles_response_headers", "F4_handler_mutates_header_maps", "F6_duplicate_request"}
+	return []string{"F4_scribble_input_config", "F4_scribble_config_result", "F4_scribble_kept_config_result", "F4_flip_scalars", "F4_handler_scribbles_request_headers", "F4_handler_scribbles_response_headers", "F4_handler_mutates_header_maps", "F4_caller_scribbles_request_after_return", "F6_duplicate_request"}
 }
 func (c12) Probes() []string {
-	return []string{"shared_config_value", "handler_saw_acao_alias", "alien_request", "three_middlewares", "suite_compared"}
+	return []string{"shared_config_value", "handler_saw_acao_alias", "alien_request", "three_middlewares", "suite_compared", "reconfigure_again_same_config"}
 }
 
 func (c12) Gen(r *R, tier string) any {
@@ -89,9 +90,9 @@ func (c12) Gen(r *R, tier string) any {
 	if tier == "thorough" && r.P(0.3) {
 		steps = r.Range(40, 90)
 	}
-	kinds := []string{"req", "req", "req_mutating_handler", "req_mutating_handler", "dup", "scribble_input", "scribble_config_result", "keep_config_result", "scribble_kept", "flip_scalars"}
+	kinds := []string{"req", "req", "req_mutating_handler", "req_mutating_handler", "req_then_scribble_request", "dup", "scribble_input", "scribble_config_result", "keep_config_result", "scribble_kept", "flip_scalars", "reconf_again"}
 	for i := 0; i < steps; i++ {
-		p.Steps = append(p.Steps, C12Step{Kind: pick(r, kinds), MW: r.Intn(k), Req: r.Intn(1 << 16), Alien: r.P(0.2)})
+		p.Steps = append(p.Steps, C12Step{Kind: pick(r, kinds), MW: r.Intn(k), Req: r.Intn(1 << 16), Alien: r.P(0.2), Val: r.Intn(64)})
 	}
 	return p
 }
@@ -104,10 +105,17 @@ func (c12) Decode(b []byte) (any, error) {
 
 const junk = "MUTATED-BY-CALLER"
 
+// what the scribbler writes: a sentinel in half of the cases, otherwise a value
+// that later requests actually carry or that the middleware itself emits (an
+// origin the configuration does not allow, `*`, `true`, a method, a header name)
+var scribbleValues = []string{junk, "https://evil.test", junk, "*", junk, "true", junk, "null", "PUT", "authorization", junk, "https://example.com"}
+
+var scribbleVal = junk // set per step from the plan; read by scribble
+
 func scribble(s []string) int {
 	s = s[:cap(s)]
 	for i := range s {
-		s[i] = junk
+		s[i] = scribbleVal
 	}
 	return len(s)
 }
@@ -252,6 +260,13 @@ func (c12) Exec(plan any, c *Ctx) *Violation {
 	for si, st := range p.Steps {
 		x := mws[st.MW%len(mws)]
 		step := fmt.Sprintf("#%d %s mw=%d", si, st.Kind, st.MW%len(mws))
+		// the value written by this step's scribbler: from the fixed list, or a
+		// near-miss origin of this middleware's own configuration
+		vals := scribbleValues
+		if _, miss := originsFor(p.Cfgs[p.MWs[st.MW%len(mws)].Cfg%len(p.Cfgs)]); len(miss) > 0 {
+			vals = append(append([]string{}, scribbleValues...), miss[st.Val%len(miss)], miss[0])
+		}
+		scribbleVal = vals[st.Val%len(vals)]
 		pan := catch(func() {
 			switch st.Kind {
 			case "req", "req_mutating_handler":
@@ -269,6 +284,36 @@ func (c12) Exec(plan any, c *Ctx) *Violation {
 				x.mutate = false
 				last, lastMW = &q, st.MW%len(mws)
 				step += " " + q.String()
+			case "req_then_scribble_request":
+				// the caller (e.g. a server recycling its buffers) overwrites the request's
+				// header slices AFTER the request has been served
+				q := x.suite[st.Req%len(x.suite)]
+				rq := q.build()
+				w := newRec(nil)
+				x.srv.ServeHTTP(w, rq)
+				n := 0
+				for k, vs := range rq.Header {
+					n += scribble(vs)
+					rq.Header[k] = append(vs, junk)
+				}
+				if n > 0 {
+					c.hit("F4_caller_scribbles_request_after_return")
+					c.Nontrivial = true
+				}
+				step += " " + q.String()
+			case "reconf_again":
+				// Reconfigure with a FRESH copy of the same configuration (the memory passed
+				// earlier may have been scribbled over meanwhile): behaviour must stay put
+				cc := p.Cfgs[p.MWs[st.MW%len(mws)].Cfg%len(p.Cfgs)].Config()
+				if sw := p.MWs[st.MW%len(mws)].ShareWith; sw > 0 && sw-1 < st.MW%len(mws) {
+					cc = p.Cfgs[p.MWs[sw-1].Cfg%len(p.Cfgs)].Config()
+				}
+				if err := x.m.Reconfigure(&cc); err != nil {
+					panic("harness: valid configuration rejected on reconf_again: " + err.Error())
+				}
+				x.passed = &cc
+				x.m.SetDebug(p.MWs[st.MW%len(mws)].Debug)
+				c.hit("reconfigure_again_same_config")
 			case "dup":
 				if last != nil {
 					c.hit("F6_duplicate_request")
